@@ -44,12 +44,13 @@ TABLE = {
            ("RejectProofs.v", ["find_entity_first", "ok_refs_defined_first"], "Local Notation token := Tokenizer.token.")]),
  "C08": dict(
    intro="C08 -- ill-formed documents are rejected.  (1) the three character classes are the Fifth Edition\n   productions for every scalar value (tables regenerated from the source on every run);\n   (2) local rejection theorems, 'accepted implies constraint': comment bodies, ']]>' in text, misplaced\n   declaration, '<' in attribute values, every consumed character is a Char, end tags match the open\n   element and cannot close an element opened outside the current entity, reserved prefixes and URIs,\n   entity references are declared (first declaration wins), and the document-level token shape: only\n   comments / PIs (and entity declarations) before the root, at most one root element, only\n   comments / PIs after it.",
-   imports=["From RX.Spec Require Chars.", "From RX.Proofs Require Import CharTablesProofs RejectProofs."],
+   imports=["From RX.Spec Require Chars.", "From RX.Proofs Require Import CharTablesProofs RejectProofs WfParseTok WfParseChars WfParse."],
    groups=[("CharTablesProofs.v", ["char_tables_conform", "byte_tables_conform", "byte_space_conform", "byte_char_agree"]),
            ("RejectProofs.v", ["ok_comment_body", "ok_text_no_cdata_end", "ok_pi_not_declaration", "ok_no_lt_in_attr", "skip_chars_only_chars",
                                "skip_chars_only_chars_text", "consume_chars_only_chars", "ok_tags_balanced", "ok_reserved_names",
                                "ok_element_prefix_not_xmlns", "find_entity_first", "ok_refs_defined", "ok_refs_defined_first",
-                               "ok_document_shape", "ok_no_text_before_root"], "Local Notation token := Tokenizer.token.")]),
+                               "ok_document_shape", "ok_no_text_before_root"], "Local Notation token := Tokenizer.token."),
+           ("WfParse.v", ["parse_comments_ok", "parse_names_are_names", "parse_all_chars", "parse_doc_wf"])]),
  "C03": dict(
    intro="C03 -- elements, comments and PIs mirror the document's logical structure.  Lexer post-conditions\n   (with a token recorder as callback): a comment token's text is exactly the source between '<!--' and\n   '-->'; a PI's target and value are the source strings (value without leading whitespace, None when\n   empty); CDATA / text tokens are their source slices; the DOCTYPE and the prolog / epilog deliver only\n   comments, PIs (and entity declarations); a start tag delivers ElementStart, attributes, one ElementEnd.\n   The XML declaration has no callback at all.  Document-level token shape: Proofs/RejectProofs.v.\n   The composition 'rendering of an abstract document parses to its tree' is not proved (correspondence).",
    imports=["From RX.Proofs Require Import LexerProofs RejectProofs."],
@@ -74,6 +75,12 @@ TABLE = {
    groups=[("ScopeParse.v", ["parse_scopes_ok", "parse_names_ok"]),
            ("ScopeProofs.v", ["scopes_refine", "scope_prefixes_unique", "names_resolve", "unknown_prefix_rejected", "unknown_prefix_never_ok",
                               "duplicate_declaration_rejected", "push_ns_appends", "push_ns_limit", "ns_values_limit_is"])]),
+ "C09": dict(
+   intro="C09 -- entity expansion is bounded yet not over-restricted.  (1) the loop detector is sound and complete\n   w.r.t. the trace specification, with the documented numbers (10, 255) against constants regenerated from the\n   source; (2) the node budget over a whole parse: a successfully parsed document has at most\n   1 + len + 256 * len * amp nodes (hence <= 256 * (len + 1) * (amp + 1)), for every input and all options;\n   without a DOCTYPE at most len + 1 nodes.",
+   imports=["From RX.Spec Require Import Detector.", "From RX.Proofs Require Import DetectorProofs OptionsParam OptionsBuild OptionsMain OptionsDtd BudgetStream BudgetTok BudgetBuild BudgetAcct BudgetMain BudgetNoEnt."],
+   groups=[("BudgetMain.v", ["expansion_budget_nodes", "expansion_budget_tight"]), ("BudgetNoEnt.v", ["budget_no_entities"]),
+           ("DetectorProofs.v", ["enter_agrees_model", "detector_sound", "detector_complete", "limits_bound_depth", "limits_bound_nested",
+                                 "documented_limits", "chain_accepted_iff", "fan_accepted_iff", "flat_accepted"])]),
  "C10": dict(
    intro="C10 -- every read operation on a parsed document is total: for every successfully parsed document\n   (valid UTF-8 input, limit fitting the u32 field), every node id below the node count and every argument,\n   each accessor, axis, element variant, iterator constructor, name lookup, text / tail, root_element,\n   get_node (any id) and text_pos_at (any offset) of the model's API returns Ok -- it reaches none of the\n   panic sites of the source (unwrap, expect, indexing, slicing) and its loops do not run out of fuel.",
    imports=["From RX.Spec Require Import Tree.", "From RX.Model Require Import Debug.", "From RX.Proofs Require Import ApiTotal PositionProofs DebugTotal."],
@@ -97,9 +104,11 @@ TABLE = {
                                "has_tag_name_spec", "has_tag_name_non_element", "lookup_namespace_uri_first", "default_namespace_is_lookup_none",
                                "lookup_prefix_xml", "lookup_prefix_first", "attr_eqb_spec"])]),
  "C13": dict(
-   intro="C13 -- source ranges designate the construct they belong to.  Shape clauses, from the lexer\n   post-conditions: the range of a comment token is exactly '<!--' text '-->', of a PI token '<?' target ...\n   '?>', a start tag runs from '<' to its '>' and the name follows the '<', an end tag from '</' to '>';\n   text / CDATA ranges are the token's source.  (The builder stores these token ranges; validity, nesting\n   and the shift relation are checked by the range oracle, not proved.)",
-   imports=["From RX.Proofs Require Import LexerProofs."],
-   groups=[("LexerProofs.v", ["parse_comment_post", "parse_pi_post", "parse_cdata_post", "parse_text_post", "parse_element_tokens",
+   intro="C13 -- source ranges are valid and designate the construct they belong to.  For every parsed document\n   (entity-expanded nodes included): every node and attribute range is a valid slice of the input (start <=\n   end <= len, char boundaries), the root range is the whole input, every attribute lies strictly inside its\n   element's range with its qname sub-range inside it; for documents without a DOCTYPE a child's range lies\n   within its parent's and a node starts after its previous sibling ends.  Shape clauses, from the lexer\n   post-conditions: the range of a comment token is exactly '<!--' text '-->', of a PI token '<?' target ...\n   '?>', a start tag runs from '<' to its '>' and the name follows the '<', an end tag from '</' to '>';\n   text / CDATA ranges are the token's source.  (The builder stores these token ranges; validity, nesting\n   and the shift relation are checked by the range oracle, not proved.)",
+   imports=["From RX.Proofs Require Import LexerProofs NoPanicTokenizer RangeTokenizer RangeArena RangeInv RangeBuilder RangeParse."],
+   groups=[("RangeParse.v", ["parse_ranges_valid", "parse_attr_ranges_inside", "parse_ranges_nest", "parse_ranges_siblings"]),
+           ("RangeTokenizer.v", ["tokenizer_token_ranges"], "Local Notation token := Tokenizer.token."),
+           ("LexerProofs.v", ["parse_comment_post", "parse_pi_post", "parse_cdata_post", "parse_text_post", "parse_element_tokens",
                               "parse_close_element_post"], "Local Notation token := Tokenizer.token.", "forall (text : bytes),")]),
  "C14": dict(
    intro="C14 -- text positions and error reports: text_pos_at is total on valid UTF-8, clamps, counts\n   rows by LF and columns in characters, stays in bounds and moves with inserted line breaks / spaces;\n   every Err returned by parse carries the position of an offset inside the input (or is one of the\n   seven position-less variants, which report 1:1), hence row / column are within the input.",
